@@ -618,6 +618,76 @@ def wsgi_entry_level(ctx):
             ctx.violation("only %d of %d first requests were answered" % (len(served), nthreads), case)
 
 
+def exception_in_section_level(ctx):
+    """leaving a locked section by an exception releases the lock like leaving it normally does (the model's `release` step has
+    no other variant): afterwards `locked` is empty and both modes can be taken again - for the flock lock, the in-process lock of
+    multifilesystem_nolock and its keyed lock, after sections in either mode, nested readers included"""
+    import os
+    import shutil
+    import tempfile
+    import radicale.storage.multifilesystem_nolock as nolock
+    from radicale import pathutils
+    rng = ctx.rng("exc")
+
+    def try_take(take, m):
+        """enter and leave a section in mode m on another thread; None, or what went wrong (an exception, or no progress in 2 s)"""
+        res = []
+
+        def body():
+            try:
+                with take(m):
+                    pass
+                res.append(None)
+            except Exception as e:      # noqa
+                res.append("raises %r" % e)
+        t = real_threading.Thread(target=body, daemon=True)
+        t.start()
+        t.join(2.0)
+        return res[0] if res else "blocks for ever"
+    tmp = tempfile.mkdtemp(prefix="rverif-c11-")
+    try:
+        for i in range(ctx.n(40, 400)):
+            kind = rng.choice(["flock", "cv", "dict"])
+            modes = [rng.choice("rw") for _ in range(rng.randint(1, 3))]
+            if kind == "flock":
+                lock = pathutils.RwLock(os.path.join(tmp, ".Radicale.lock"))
+                take = lock.acquire
+            elif kind == "cv":
+                lock = nolock.RwLock()
+                take = lock.acquire
+            else:
+                lock = nolock.LockDict()
+                take = lambda m: lock.acquire("k")             # noqa: E731  (a mutex per key)
+            case = {"lock": kind, "sections left by an exception (mode)": modes}
+            problem = None
+            for m in modes:
+                try:
+                    with take(m):
+                        if m == "r" and kind != "dict" and rng.random() < 0.3:
+                            with take("r"):
+                                raise KeyError("inside the inner reader section")
+                        raise KeyError("inside the section")
+                except KeyError:
+                    pass
+                except Exception as e:
+                    problem = "entering the next section failed: %r" % e
+                    break
+                if kind != "dict" and getattr(lock, "locked", "") != "":
+                    problem = "`locked` is %r after the section was left by an exception" % lock.locked
+                    break
+            if problem is None:
+                for m in ("w", "r", "w"):
+                    bad = try_take(take, m)
+                    if bad:
+                        problem = "afterwards taking the lock in mode %s %s" % (m, bad)
+                        break
+            ctx.case("exception-in-section:%s" % kind, sample=case, key=["exc", i], nontrivial=True)
+            if problem:
+                ctx.violation("the lock is not released when its section is left by an exception - " + problem, case)
+    finally:
+        shutil.rmtree(tmp, ignore_errors=True)
+
+
 def run(ctx):
     ctx.extra["rule"] = ("random schedules of 2-5 logical threads x 1-3 acquire/release cycles in mode r or w (2 keys for the keyed lock), one "
                          "synchronisation operation per step; a case = (plan, schedule); non-trivial = some thread had to wait")
@@ -632,3 +702,4 @@ def run(ctx):
     for i in range(n):
         run_dict_schedule(ctx, rng, rng.randint(2, 5), rng.randint(1, 3))
     wsgi_entry_level(ctx)
+    exception_in_section_level(ctx)
